@@ -11,6 +11,7 @@
   Correspondence with the real generated code: `vlib/props/c04.py`.
 -/
 import Sbepp.Lemmas.Cursor
+import Sbepp.Lemmas.CursorTie
 
 namespace Sbepp.Properties.C04
 open Sbepp Sbepp.Schema Sbepp.Gen Sbepp.Cursor Sbepp.Rt.Cursor Sbepp.Spec.CursorProtocol
@@ -376,5 +377,108 @@ example : stepField .plain ⟨0, 8, 9, some 37⟩ exBuf (some 8) ⟨1, 11, 1, fa
 /-- the same call through `init` is legal anywhere -/
 example : stepField .init ⟨0, 8, 9, some 37⟩ exBuf (some 8) ⟨1, 11, 1, false, false⟩
     = .ok ⟨.value [3], some 12, exBuf⟩ := by decide
+
+/-! ### the same statements about the member functions as translated from the current `sbepp.hpp`
+
+  `Sbepp.Extracted.Cursor.*` is regenerated from the C++ text of the five cursor
+  classes on every check run (`extract/methods_cursor.py`);
+  `Lemmas/CursorTie.lean` proves each of the 48 translated methods equal to the
+  hand model (`C.get_value_tie` …) and the four dispatchers over them equal to
+  `stepField`/`stepSet`/`stepGroup`/`stepData`.  So the theorems above are
+  theorems about what the code says now; a semantic edit of a method breaks its
+  tie and with it this module.  (`travL` is a composition of `stepField`,
+  `stepGroup`, `stepData` and the range primitives, so the traversal theorems
+  are covered by the same equations.) -/
+
+open Sbepp.Lemmas.CursorTie
+
+theorem cursor_step_field_extracted (w : Wrapper) (v : LView) (buf : List Nat) (cur : Option Nat) (hdr pe : Nat)
+    (s : FieldSpan) (last : Bool) (hv : v.lvl = v.addr + hdr) (hpe : pe ≤ s.off)
+    (hin : Inside v.endp (v.lvl + s.off + s.size))
+    (hc : v.endp.isSome = true ∨ (needsPre w = true → cur = some (v.lvl + pe))) :
+    stepFieldX w v buf cur (accOf hdr pe s last)
+      = toOut buf (specField ⟨v.lvl + pe, v.lvl + s.off, s.size, s.isView, getLeaf buf v.lvl ⟨s.off, s.size⟩⟩
+          last (v.lvl + v.wbl) w cur) := by
+  rw [stepFieldX_eq]; exact cursor_step_field w v buf cur hdr pe s last hv hpe hin hc
+
+theorem cursor_step_set_extracted (w : Wrapper) (v : LView) (buf : List Nat) (cur : Option Nat) (hdr pe : Nat)
+    (s : FieldSpan) (last : Bool) (value : List Nat) (hv : v.lvl = v.addr + hdr) (hpe : pe ≤ s.off)
+    (hin : Inside v.endp (v.lvl + s.off + s.size))
+    (hc : v.endp.isSome = true ∨ (needsPre w = true → cur = some (v.lvl + pe))) :
+    stepSetX w v buf cur (accOf hdr pe s last) value
+      = toOut (setLeaf buf v.lvl ⟨s.off, s.size⟩ value)
+          (specFieldSet ⟨v.lvl + pe, v.lvl + s.off, s.size, s.isView, getLeaf buf v.lvl ⟨s.off, s.size⟩⟩
+            last (v.lvl + v.wbl) w cur) := by
+  rw [stepSetX_eq]; exact cursor_step_set w v buf cur hdr pe s last value hv hpe hin hc
+
+theorem cursor_step_group_extracted (w : Wrapper) (bo : ByteOrder) (v : LView) (buf : List Nat) (cur : Option Nat)
+    (gs : List Group) (k : Nat) (g : Group)
+    (hin : Inside v.endp (groupPos bo buf gs v.lvl v.wbl k + g.dim.size))
+    (hc : v.endp.isSome = true ∨ (needsPre w = true → k ≠ 0 → cur = some (groupPos bo buf gs v.lvl v.wbl k))) :
+    stepGroupX w bo v buf cur gs k g
+      = toOut buf (specGroup ⟨groupPos bo buf gs v.lvl v.wbl k, groupPos bo buf gs v.lvl v.wbl k + g.dim.size,
+          endG bo buf g (groupPos bo buf gs v.lvl v.wbl k)⟩ (k == 0) w cur) := by
+  rw [stepGroupX_eq]; exact cursor_step_group w bo v buf cur gs k g hin hc
+
+theorem cursor_step_data_extracted (w : Wrapper) (bo : ByteOrder) (v : LView) (buf : List Nat) (cur : Option Nat)
+    (l : Level) (k : Nat) (d : DataL)
+    (hin : Inside v.endp (dataPos bo buf l v.lvl v.wbl k + d.lenSize))
+    (hc : v.endp.isSome = true ∨
+      (needsPre w = true → ¬ (k = 0 ∧ l.groups.isEmpty = true) → cur = some (dataPos bo buf l v.lvl v.wbl k))) :
+    stepDataX w bo v buf cur l k d
+      = toOut buf (specData ⟨dataPos bo buf l v.lvl v.wbl k,
+          dataPos bo buf l v.lvl v.wbl k + d.lenSize + rd bo buf (dataPos bo buf l v.lvl v.wbl k) d.lenSize⟩
+          (k == 0 && l.groups.isEmpty) w cur) := by
+  rw [stepDataX_eq]; exact cursor_step_data w bo v buf cur l k d hin hc
+
+theorem cursor_step_protocol_extracted (bo : ByteOrder) (v : LView) (buf : List Nat) (cur : Option Nat) (w : Wrapper)
+    (hdr : Nat) (sp : List FieldSpan) (bl : Nat) (lv : List Leaf) (gs : List Group) (ds : List DataL)
+    (hv : v.lvl = v.addr + hdr) (hord : SpansOrdered 0 sp) (hchk : v.endp.isSome = true) :
+    (∀ i a, (accsOf hdr 0 sp)[i]? = some a → (∀ s ∈ sp, Inside v.endp (v.lvl + s.off + s.size)) →
+      stepFieldX w v buf cur a
+        = toOut buf (specGet (geoWalk bo buf sp gs ds v.lvl v.wbl) (.field i) w cur))
+    ∧ (∀ k g, gs[k]? = some g → Inside v.endp (groupPos bo buf gs v.lvl v.wbl k + g.dim.size) →
+      stepGroupX w bo v buf cur gs k g
+        = toOut buf (specGet (geoWalk bo buf sp gs ds v.lvl v.wbl) (.group k) w cur))
+    ∧ (∀ k d, ds[k]? = some d → Inside v.endp (dataPos bo buf (.mk bl lv gs ds) v.lvl v.wbl k + d.lenSize) →
+      stepDataX w bo v buf cur (.mk bl lv gs ds) k d
+        = toOut buf (specGet (geoWalk bo buf sp gs ds v.lvl v.wbl) (.data k) w cur)) := by
+  rw [stepFieldX_eq, stepGroupX_eq, stepDataX_eq]
+  exact cursor_step_protocol bo v buf cur w hdr sp bl lv gs ds hv hord hchk
+
+theorem cursor_wrong_position_reported_extracted (w : Wrapper) (hw : needsPre w = true) (bo : ByteOrder) (v : LView)
+    (buf : List Nat) (cur : Option Nat) (e : Nat) (he : v.endp = some e) :
+    (∀ hdr pe (s : FieldSpan) last, v.lvl = v.addr + hdr → pe ≤ s.off → Inside v.endp (v.lvl + s.off + s.size) →
+      cur ≠ some (v.lvl + pe) →
+      stepFieldX w v buf cur (accOf hdr pe s last) = .error .wrongCursor
+      ∧ ∀ value, w ≠ .skip → stepSetX w v buf cur (accOf hdr pe s last) value = .error .wrongCursor)
+    ∧ (∀ gs k (g : Group), k ≠ 0 → Inside v.endp (groupPos bo buf gs v.lvl v.wbl k + g.dim.size) →
+      cur ≠ some (groupPos bo buf gs v.lvl v.wbl k) → stepGroupX w bo v buf cur gs k g = .error .wrongCursor)
+    ∧ (∀ l k (d : DataL), ¬ (k = 0 ∧ l.groups.isEmpty = true) →
+      Inside v.endp (dataPos bo buf l v.lvl v.wbl k + d.lenSize) →
+      cur ≠ some (dataPos bo buf l v.lvl v.wbl k) → stepDataX w bo v buf cur l k d = .error .wrongCursor) := by
+  rw [stepFieldX_eq, stepSetX_eq, stepGroupX_eq, stepDataX_eq]
+  exact cursor_wrong_position_reported w hw bo v buf cur e he
+
+theorem cursor_checked_get_inside_view_extracted (w : Wrapper) (v : LView) (buf : List Nat) (cur : Option Nat)
+    (a : Acc) (e : Nat) (st : Step) (he : v.endp = some e) (hnv : a.isView = false)
+    (h : stepFieldX w v buf cur a = .ok st) :
+    ∃ start, start + a.size ≤ e ∧ (w ≠ .skip → st.res = .value (slice buf start a.size)) := by
+  rw [stepFieldX_eq] at h; exact cursor_checked_get_inside_view w v buf cur a e st he hnv h
+
+theorem cursor_checked_set_inside_view_extracted (w : Wrapper) (v : LView) (buf : List Nat) (cur : Option Nat)
+    (a : Acc) (value : List Nat) (e : Nat) (st : Step) (he : v.endp = some e)
+    (h : stepSetX w v buf cur a value = .ok st) :
+    ∃ start, start + a.size ≤ e ∧ st.buf = writeAt buf start value := by
+  rw [stepSetX_eq] at h; exact cursor_checked_set_inside_view w v buf cur a value e st he h
+
+/-- non-vacuity on the translated methods: the illegal and the legal call of the example above -/
+example : stepFieldX .plain ⟨0, 8, 9, some 37⟩ exBuf (some 8) ⟨1, 11, 1, false, false⟩ = .error .wrongCursor := by decide
+example : stepFieldX .init ⟨0, 8, 9, some 37⟩ exBuf (some 8) ⟨1, 11, 1, false, false⟩
+    = .ok ⟨.value [3], some 12, exBuf⟩ := by decide
+/-- with checks compiled out, `skip` over the last field does not touch a null cursor (the code, and since
+    the tie also the model): the cursor is simply set to the end of the block -/
+example : Sbepp.Extracted.Cursor.S.get_last_value ⟨0, 8, 9, none⟩ exBuf none 0 8 2 = .ok ⟨.void, some 17, exBuf⟩ := by
+  decide
 
 end Sbepp.Properties.C04
